@@ -12,7 +12,8 @@ import sys
 import tempfile
 
 VERIF = os.path.dirname(os.path.dirname(os.path.abspath(__file__)))
-sel = sys.argv[1:]
+save_corpus = "--save-corpus" in sys.argv
+sel = [a for a in sys.argv[1:] if not a.startswith("--")]
 base = tempfile.mkdtemp(prefix="naunet-seedcheck-", dir="/dev/shm" if os.path.isdir("/dev/shm") else None)
 ev = {p: open(os.path.join(VERIF, "evidence", f"{p}.json")).read() for p in ("C14", "C17", "C19")}
 before = set(os.listdir(os.path.join(VERIF, "replays")))
@@ -31,11 +32,21 @@ try:
             bad += 1
             continue
         p = subprocess.run([os.path.join(VERIF, "check"), meta["property"], "quick"], cwd=VERIF, capture_output=True, text=True,
-                           env=dict(os.environ, NAUNET_REPO=copy), timeout=3000)
+                           env=dict(os.environ, NAUNET_REPO=copy, **({"VERIF_NO_CORPUS": "1"} if save_corpus else {})), timeout=3000)
         caught = p.returncode == 1 and "VIOLATION property=" + meta["property"] in p.stdout
         clause = next((ln for ln in p.stdout.splitlines() if ln.startswith("violated clause")), "")[:110]
         print(f"{sid:<48} {meta['property']} {'CAUGHT' if caught else 'MISSED rc=%d' % p.returncode} {clause}", flush=True)
         bad += 0 if caught else 1
+        if caught and save_corpus:
+            # keep the first two minimised replay files as regression scenarios of the corpus
+            paths = [ln.split("replay=", 1)[1].strip() for ln in p.stdout.splitlines() if ln.startswith("VIOLATION property=")]
+            paths = [x for x in paths if os.path.join("corpus", "") not in x and os.path.exists(x)][:2]
+            cdir = os.path.join(VERIF, "corpus", meta["property"])
+            os.makedirs(cdir, exist_ok=True)
+            for k, x in enumerate(paths):
+                doc = json.load(open(x))
+                doc["corpus_origin"] = f"seeded/{sid}"
+                json.dump(doc, open(os.path.join(cdir, f"{sid}-{k}.json"), "w"), indent=1, sort_keys=True)
         shutil.rmtree(copy, ignore_errors=True)
 finally:
     shutil.rmtree(base, ignore_errors=True)
